@@ -191,6 +191,9 @@ impl TulispObject {
             .with_trace(other_list)
             .with_trace(self.clone()));
         }
+        // Copied before `self` is mutably borrowed: `other_list` may be `self`
+        // itself, or contain it.
+        let other_list = other_list.deep_copy()?;
         self.rc
             .borrow_mut()
             .append(other_list)
